@@ -24,4 +24,8 @@ var (
 	ErrListenerClosed     = errors.New("group listener closed")
 	ErrGroupDifferentPort = errors.New("group should have same remote port")
 	ErrProxyRepeated      = errors.New("group proxy repeated")
+
+	// errGroupClosed is returned by a group whose last member has left: the group object
+	// was removed from its controller and must not be joined anymore.
+	errGroupClosed = errors.New("group closed")
 )
